@@ -131,6 +131,18 @@ Proof.
   intro E. rewrite E in K. discriminate K.
 Qed.
 
+(* non-inherited properties are read from the element itself (text baseline properties excepted) *)
+Lemma all_own_ok : forallb site_own_ok read_sites = true.
+Proof. vm_compute. reflexivity. Qed.
+
+Lemma sites_own : forall s, In s read_sites -> value_site s = true -> spec_noninherited (rs_attr s) = true ->
+  text_baseline_prop (rs_attr s) = false -> rs_walk s = "none".
+Proof.
+  intros s H V N T. pose proof (proj1 (forallb_forall _ _) all_own_ok s H) as K.
+  unfold site_own_ok in K. rewrite V, N, T in K. simpl in K. unfold walks in K.
+  apply negb_true_iff in K. apply negb_false_iff in K. apply String.eqb_eq. exact K.
+Qed.
+
 (* every <length> read goes through units::convert_length (or resolve_font_size's table) *)
 Lemma all_lengths_ok : forallb site_length_ok read_sites = true.
 Proof. vm_compute. reflexivity. Qed.
